@@ -224,5 +224,38 @@ func TestVerifC20Client(t *testing.T) {
 			r.Note("client churn round %d connected no peer: %s", round, line)
 		}
 	}
+	// A popped peer that goes away (staleness / remote close / shutdown, here: its Close from a goroutine that
+	// has nothing to do with the consumer) before the consumer reads from it, while the proxy is already sending:
+	// the message callback then finds the pipe closed and goes on to the traffic logger without ever having
+	// met the consumer.
+	for k := 0; k < r.N(3, 12); k++ {
+		st := &c20Answerer{}
+		bc := &BrokerChannel{Rendezvous: st, keepLocalAddresses: true, natType: nat.NATUnknown}
+		peers, err := NewPeers(NewWebRTCDialer(bc, nil, 1))
+		if err != nil {
+			t.Fatal(err)
+		}
+		peers.bytesLogger = newBytesSyncLogger()
+		pe, err := peers.Collect()
+		line := fmt.Sprintf("round %d: one peer collected; its Close comes 300 ms later from an unrelated goroutine; the consumer Pops it after 50 ms and never reads; the proxy sends from the moment the channel opens", k)
+		if err != nil {
+			r.Note("popped-peer-goes-away %d: no peer (%v)", k, err)
+			st.close()
+			continue
+		}
+		var wg sync.WaitGroup
+		wg.Add(2)
+		go func() { defer wg.Done(); time.Sleep(300 * time.Millisecond); pe.Close() }()
+		go func() {
+			defer wg.Done()
+			time.Sleep(50 * time.Millisecond)
+			peers.Pop()
+			time.Sleep(500 * time.Millisecond)
+		}()
+		wg.Wait()
+		peers.End()
+		st.close()
+		r.Case("client/popped-peer-goes-away-unread", line, true)
+	}
 	_ = errors.New
 }
